@@ -47,9 +47,6 @@ func (e *Engine) smtText(o *Oblig) string {
 			fmt.Fprintf(&body, "(declare-const %s %s)\n", n, so)
 		}
 	}
-	if c.useIx {
-		body.WriteString("(declare-fun ix (Int Int) Int)\n(assert (forall ((o Int) (k Int)) (! (= (ix o k) (+ o k)) :pattern ((ix o k)))))\n")
-	}
 	for _, f := range c.strLitFacts() {
 		fmt.Fprintf(&body, "(assert %s)\n", f)
 	}
